@@ -1323,7 +1323,17 @@ def r8_doc_lines(ctx):
     ctx.check(R, "doc:only-doc-attributes-contribute", okc, detail, f)
 
 
-RULES = [("C19.R1", r1_one_producer), ("C19.R2a", r2a_validate), ("C19.R2b", r2b_emission), ("C19.R3", r3_builders),
+
+def r9_declared_body_limit_is_the_effective_limit(ctx):
+    """The declared `request_body_max_bytes` is carried into the endpoint by the macro (R2) and the builder (R3); what the
+    server then *uses* is RequestContext::request_body_max_bytes() = override, else default — C11.R4, re-evaluated here
+    because its violation is a C19 violation too (seed C19-D: the override could only raise the default)."""
+    from . import c11
+    from .lib_c01 import Renamed
+    c11.r4_effective_limit(Renamed(ctx, "C19.R9", "the body limit written on the declaration is the limit enforced for that endpoint"))
+
+
+RULES = [("C19.R9", r9_declared_body_limit_is_the_effective_limit), ("C19.R1", r1_one_producer), ("C19.R2a", r2a_validate), ("C19.R2b", r2b_emission), ("C19.R3", r3_builders),
          ("C19.R4", r4_new_vs_stub), ("C19.R5", r5_tables), ("C19.R6", r6_document), ("C19.R7", r7_versions), ("C19.R8", r8_doc_lines)]
 
 _M = "dropshot_endpoint/src/metadata.rs"
